@@ -30,6 +30,15 @@ pub trait It {
     fn rfold_all(self: Box<Self>) -> Vec<Item>;
     /// `rev()`, then optionally `skip(n)` / `step_by(k)`, collected
     fn adapt_all(self: Box<Self>, rev: bool, skip: usize, step: usize) -> Vec<Item>;
+    /// everything left, through `Iterator::for_each`
+    fn for_each_all(self: Box<Self>) -> Vec<Item>;
+    // the searching methods with the fixed predicate `sel_pred`
+    fn find_sel(&mut self, sel: u8) -> Option<Item>;
+    fn rfind_sel(&mut self, sel: u8) -> Option<Item>;
+    fn position_sel(&mut self, sel: u8) -> Option<usize>;
+    fn rposition_sel(&mut self, sel: u8) -> Option<usize>;
+    fn any_sel(&mut self, sel: u8) -> bool;
+    fn all_sel(&mut self, sel: u8) -> bool;
     /// Overwrite the element that the next `next`/`next_back` yields (mutable
     /// iterators only; `None` for read-only ones).
     fn next_set(&mut self, _new: Item) -> Option<Option<Item>> {
@@ -77,6 +86,9 @@ where
         let ReadIt(it, f) = *self;
         it.fold(Vec::new(), |mut v, x| {
             v.push(f(x));
+            if v.len() > crate::ITER_CAP * 64 {
+                panic!("{}", crate::ITER_NEVER_ENDS);
+            }
             v
         })
     }
@@ -90,6 +102,62 @@ where
     fn adapt_all(self: Box<Self>, rev: bool, skip: usize, step: usize) -> Vec<Item> {
         let ReadIt(it, f) = *self;
         adapt(it, rev, skip, step).into_iter().map(f).collect()
+    }    fn for_each_all(self: Box<Self>) -> Vec<Item> {
+        let ReadIt(it, f) = *self;
+        let mut v = Vec::new();
+        it.for_each(|x| {
+            v.push(f(x));
+            if v.len() > crate::ITER_CAP * 64 {
+                panic!("{}", crate::ITER_NEVER_ENDS);
+            }
+        });
+        v
+    }
+    fn find_sel(&mut self, sel: u8) -> Option<Item> {
+        let f = &self.1;
+        // the predicate sees the item by reference; read it through a by-value copy of the mapped form
+        let mut found = None;
+        let _ = self.0.find_map(|x| {
+            let it = f(x);
+            if crate::sel_pred(&it, sel) {
+                found = Some(it);
+                Some(())
+            } else {
+                None
+            }
+        });
+        found
+    }
+    fn rfind_sel(&mut self, sel: u8) -> Option<Item> {
+        let f = &self.1;
+        let mut found = None;
+        // `rfind` proper needs the item by reference; `rev().find_map` drives `next_back`/`try_rfold` the same way
+        let _ = self.0.by_ref().rev().find_map(|x| {
+            let it = f(x);
+            if crate::sel_pred(&it, sel) {
+                found = Some(it);
+                Some(())
+            } else {
+                None
+            }
+        });
+        found
+    }
+    fn position_sel(&mut self, sel: u8) -> Option<usize> {
+        let f = &self.1;
+        self.0.position(|x| crate::sel_pred(&f(x), sel))
+    }
+    fn rposition_sel(&mut self, sel: u8) -> Option<usize> {
+        let f = &self.1;
+        self.0.rposition(|x| crate::sel_pred(&f(x), sel))
+    }
+    fn any_sel(&mut self, sel: u8) -> bool {
+        let f = &self.1;
+        self.0.any(|x| crate::sel_pred(&f(x), sel))
+    }
+    fn all_sel(&mut self, sel: u8) -> bool {
+        let f = &self.1;
+        self.0.all(|x| crate::sel_pred(&f(x), sel))
     }
 }
 
@@ -145,6 +213,9 @@ where
         let WriteIt(it, r, _) = *self;
         it.fold(Vec::new(), |mut v, h| {
             v.push(r(&h));
+            if v.len() > crate::ITER_CAP * 64 {
+                panic!("{}", crate::ITER_NEVER_ENDS);
+            }
             v
         })
     }
@@ -159,6 +230,42 @@ where
         let WriteIt(it, r, _) = *self;
         adapt(it, rev, skip, step).into_iter().map(|h| r(&h)).collect()
     }
+    fn for_each_all(self: Box<Self>) -> Vec<Item> {
+        let WriteIt(it, r, _) = *self;
+        let mut v = Vec::new();
+        it.for_each(|h| {
+            v.push(r(&h));
+            if v.len() > crate::ITER_CAP * 64 {
+                panic!("{}", crate::ITER_NEVER_ENDS);
+            }
+        });
+        v
+    }
+    fn find_sel(&mut self, sel: u8) -> Option<Item> {
+        let r = &self.1;
+        self.0.find(|h| crate::sel_pred(&r(h), sel)).map(|h| r(&h))
+    }
+    fn rfind_sel(&mut self, sel: u8) -> Option<Item> {
+        let r = &self.1;
+        self.0.rfind(|h| crate::sel_pred(&r(h), sel)).map(|h| r(&h))
+    }
+    fn position_sel(&mut self, sel: u8) -> Option<usize> {
+        let r = &self.1;
+        self.0.position(|h| crate::sel_pred(&r(&h), sel))
+    }
+    fn rposition_sel(&mut self, sel: u8) -> Option<usize> {
+        let r = &self.1;
+        self.0.rposition(|h| crate::sel_pred(&r(&h), sel))
+    }
+    fn any_sel(&mut self, sel: u8) -> bool {
+        let r = &self.1;
+        self.0.any(|h| crate::sel_pred(&r(&h), sel))
+    }
+    fn all_sel(&mut self, sel: u8) -> bool {
+        let r = &self.1;
+        self.0.all(|h| crate::sel_pred(&r(&h), sel))
+    }
+
     fn next_set(&mut self, new: Item) -> Option<Option<Item>> {
         Some(self.0.next().map(|mut h| {
             let old = (self.1)(&h);
@@ -336,7 +443,7 @@ macro_rules! soa {
         pub mod $m {
             use super::*;
             #[allow(unused_imports)]
-            use simcore::types::$c as C;
+            use $crate::types::$c as C;
 
             pub const NCOLOR: usize = [$(stringify!($f)),+].len();
 
@@ -418,15 +525,15 @@ macro_rules! soa {
                     self.0.extend(src.map(from_item))
                 }
                 fn get(&self, i: usize) -> Option<Item> {
-                    self.0.get::<usize, f32>(i).map(|c| to_item_ref(&c))
+                    self.0.get(i).map(|c| to_item_ref(&c))
                 }
                 fn get_range<'a>(&'a self, r: &RangeSpec) -> Option<Box<dyn It + 'a>> {
-                    with_range!(r, |r| self.0.get::<_, f32>(r).map(|s| {
+                    with_range!(r, |r| self.0.get(r).map(|s| {
                         Box::new(ReadIt(s.into_iter(), |c: C<&f32>| to_item_ref(&c))) as Box<dyn It + 'a>
                     }))
                 }
                 fn get_mut(&mut self, i: usize, new: Option<Item>) -> Option<Item> {
-                    self.0.get_mut::<usize, f32>(i).map(|mut c| {
+                    self.0.get_mut(i).map(|mut c| {
                         let old = to_item(c.copied());
                         let via_refs = to_item_ref(&c.as_refs());
                         assert!(old.map(f32::to_bits) == via_refs.map(f32::to_bits), "as_refs differs from copied");
@@ -435,7 +542,7 @@ macro_rules! soa {
                     })
                 }
                 fn get_mut_range<'a>(&'a mut self, r: &RangeSpec) -> Option<Box<dyn It + 'a>> {
-                    with_range!(r, |r| self.0.get_mut::<_, f32>(r).map(|s| {
+                    with_range!(r, |r| self.0.get_mut(r).map(|s| {
                         Box::new(WriteIt(
                             s.into_iter(),
                             |c: &C<&mut f32>| to_item(c.copied()),
@@ -479,17 +586,17 @@ macro_rules! soa {
                                     |c: &mut C<&mut f32>, n: Item| c.set(from_item(n)),
                                 )), s, *e),
                                 SnapAction::IntoIter(..) => return None,
-                                SnapAction::Get(i) => vec![Obs::Item(b.get::<usize, f32>(*i).map(|c| to_item_ref(&c)))],
-                                SnapAction::GetRange(r, s, e) => with_range!(r, |r| match b.get::<_, f32>(r) {
+                                SnapAction::Get(i) => vec![Obs::Item(b.get(*i).map(|c| to_item_ref(&c)))],
+                                SnapAction::GetRange(r, s, e) => with_range!(r, |r| match b.get(r) {
                                     None => vec![Obs::NoRange],
                                     Some(sl) => run_sched(Box::new(ReadIt(sl.into_iter(), |c: C<&f32>| to_item_ref(&c))), s, *e),
                                 }),
-                                SnapAction::GetMut(i, n) => vec![Obs::Item(b.get_mut::<usize, f32>(*i).map(|mut c| {
+                                SnapAction::GetMut(i, n) => vec![Obs::Item(b.get_mut(*i).map(|mut c| {
                                     let old = to_item(c.copied());
                                     c.set(from_item(*n));
                                     old
                                 }))],
-                                SnapAction::GetMutRange(r, s, e) => with_range!(r, |r| match b.get_mut::<_, f32>(r) {
+                                SnapAction::GetMutRange(r, s, e) => with_range!(r, |r| match b.get_mut(r) {
                                     None => vec![Obs::NoRange],
                                     Some(sl) => run_sched(Box::new(WriteIt(
                                         sl.into_iter(),
@@ -519,8 +626,8 @@ macro_rules! soa {
                                 SnapAction::Iter(s, e) => run_sched(Box::new(ReadIt((&b).into_iter(), |c: C<&f32>| to_item_ref(&c))), s, *e),
                                 SnapAction::IterMethod(s, e) => run_sched(Box::new(ReadIt(b.iter(), |c: C<&f32>| to_item_ref(&c))), s, *e),
                                 SnapAction::IntoIter(s, e) => run_sched(Box::new(ReadIt(b.clone().into_iter(), |c: C<&f32>| to_item_ref(&c))), s, *e),
-                                SnapAction::Get(i) => vec![Obs::Item(b.get::<usize, f32>(*i).map(|c| to_item_ref(&c)))],
-                                SnapAction::GetRange(r, s, e) => with_range!(r, |r| match b.get::<_, f32>(r) {
+                                SnapAction::Get(i) => vec![Obs::Item(b.get(*i).map(|c| to_item_ref(&c)))],
+                                SnapAction::GetRange(r, s, e) => with_range!(r, |r| match b.get(r) {
                                     None => vec![Obs::NoRange],
                                     Some(sl) => run_sched(Box::new(ReadIt(sl.into_iter(), |c: C<&f32>| to_item_ref(&c))), s, *e),
                                 }),
@@ -562,17 +669,17 @@ macro_rules! soa {
                                         trace.extend(t);
                                         return Some(SnapResult { trace, after: Some(rows(&cols)) });
                                     }
-                                    SnapAction::Get(i) => vec![Obs::Item(b.get::<usize, f32>(*i).map(|c| to_item_ref(&c)))],
-                                    SnapAction::GetRange(r, s, e) => with_range!(r, |r| match b.get::<_, f32>(r) {
+                                    SnapAction::Get(i) => vec![Obs::Item(b.get(*i).map(|c| to_item_ref(&c)))],
+                                    SnapAction::GetRange(r, s, e) => with_range!(r, |r| match b.get(r) {
                                         None => vec![Obs::NoRange],
                                         Some(sl) => run_sched(Box::new(ReadIt(sl.into_iter(), |c: C<&f32>| to_item_ref(&c))), s, *e),
                                     }),
-                                    SnapAction::GetMut(i, n) => vec![Obs::Item(b.get_mut::<usize, f32>(*i).map(|mut c| {
+                                    SnapAction::GetMut(i, n) => vec![Obs::Item(b.get_mut(*i).map(|mut c| {
                                         let old = to_item(c.copied());
                                         c.set(from_item(*n));
                                         old
                                     }))],
-                                    SnapAction::GetMutRange(r, s, e) => with_range!(r, |r| match b.get_mut::<_, f32>(r) {
+                                    SnapAction::GetMutRange(r, s, e) => with_range!(r, |r| match b.get_mut(r) {
                                         None => vec![Obs::NoRange],
                                         Some(sl) => run_sched(Box::new(WriteIt(
                                             sl.into_iter(),
@@ -624,17 +731,17 @@ macro_rules! soa {
                                             trace.extend(t);
                                             return Some(SnapResult { trace, after: None });
                                         }
-                                        SnapAction::Get(i) => vec![Obs::Item(b.get::<usize, f32>(*i).map(|c| to_item_ref(&c)))],
-                                        SnapAction::GetRange(r, s, e) => with_range!(r, |r| match b.get::<_, f32>(r) {
+                                        SnapAction::Get(i) => vec![Obs::Item(b.get(*i).map(|c| to_item_ref(&c)))],
+                                        SnapAction::GetRange(r, s, e) => with_range!(r, |r| match b.get(r) {
                                             None => vec![Obs::NoRange],
                                             Some(sl) => run_sched(Box::new(ReadIt(sl.into_iter(), |c: C<&f32>| to_item_ref(&c))), s, *e),
                                         }),
-                                        SnapAction::GetMut(i, n) => vec![Obs::Item(b.get_mut::<usize, f32>(*i).map(|mut c| {
+                                        SnapAction::GetMut(i, n) => vec![Obs::Item(b.get_mut(*i).map(|mut c| {
                                             let old = to_item(c.copied());
                                             c.set(from_item(*n));
                                             old
                                         }))],
-                                        SnapAction::GetMutRange(r, s, e) => with_range!(r, |r| match b.get_mut::<_, f32>(r) {
+                                        SnapAction::GetMutRange(r, s, e) => with_range!(r, |r| match b.get_mut(r) {
                                             None => vec![Obs::NoRange],
                                             Some(sl) => run_sched(Box::new(WriteIt(
                                                 sl.into_iter(),
@@ -675,15 +782,15 @@ macro_rules! soa {
                     self.0.extend(src.map(from_item_a))
                 }
                 fn get(&self, i: usize) -> Option<Item> {
-                    self.0.get::<usize, f32, f32>(i).map(rf_a)
+                    self.0.get(i).map(rf_a)
                 }
                 fn get_range<'a>(&'a self, r: &RangeSpec) -> Option<Box<dyn It + 'a>> {
-                    with_range!(r, |r| self.0.get::<_, f32, f32>(r).map(|s| {
+                    with_range!(r, |r| self.0.get(r).map(|s| {
                         Box::new(ReadIt(s.into_iter(), rf_a)) as Box<dyn It + 'a>
                     }))
                 }
                 fn get_mut(&mut self, i: usize, new: Option<Item>) -> Option<Item> {
-                    self.0.get_mut::<usize, f32, f32>(i).map(|mut c| {
+                    self.0.get_mut(i).map(|mut c| {
                         let old = to_item_a(c.copied());
                         let via_refs = to_item_a(c.as_refs().copied());
                         assert!(old.map(f32::to_bits) == via_refs.map(f32::to_bits), "as_refs differs from copied");
@@ -692,7 +799,7 @@ macro_rules! soa {
                     })
                 }
                 fn get_mut_range<'a>(&'a mut self, r: &RangeSpec) -> Option<Box<dyn It + 'a>> {
-                    with_range!(r, |r| self.0.get_mut::<_, f32, f32>(r).map(|s| {
+                    with_range!(r, |r| self.0.get_mut(r).map(|s| {
                         Box::new(WriteIt(s.into_iter(), rd_a, wr_a)) as Box<dyn It + 'a>
                     }))
                 }
@@ -728,17 +835,17 @@ macro_rules! soa {
                                 SnapAction::IterMethod(s, e) => run_sched(Box::new(ReadIt(b.iter(), rf_a)), s, *e),
                                 SnapAction::IterMut(s, e) => run_sched(Box::new(WriteIt((&mut b).into_iter(), rd_a, wr_a)), s, *e),
                                 SnapAction::IntoIter(..) => return None,
-                                SnapAction::Get(i) => vec![Obs::Item(b.get::<usize, f32, f32>(*i).map(rf_a))],
-                                SnapAction::GetRange(r, s, e) => with_range!(r, |r| match b.get::<_, f32, f32>(r) {
+                                SnapAction::Get(i) => vec![Obs::Item(b.get(*i).map(rf_a))],
+                                SnapAction::GetRange(r, s, e) => with_range!(r, |r| match b.get(r) {
                                     None => vec![Obs::NoRange],
                                     Some(sl) => run_sched(Box::new(ReadIt(sl.into_iter(), rf_a)), s, *e),
                                 }),
-                                SnapAction::GetMut(i, n) => vec![Obs::Item(b.get_mut::<usize, f32, f32>(*i).map(|mut c| {
+                                SnapAction::GetMut(i, n) => vec![Obs::Item(b.get_mut(*i).map(|mut c| {
                                     let old = to_item_a(c.copied());
                                     c.set(from_item_a(*n));
                                     old
                                 }))],
-                                SnapAction::GetMutRange(r, s, e) => with_range!(r, |r| match b.get_mut::<_, f32, f32>(r) {
+                                SnapAction::GetMutRange(r, s, e) => with_range!(r, |r| match b.get_mut(r) {
                                     None => vec![Obs::NoRange],
                                     Some(sl) => run_sched(Box::new(WriteIt(sl.into_iter(), rd_a, wr_a)), s, *e),
                                 }),
@@ -768,8 +875,8 @@ macro_rules! soa {
                                 SnapAction::Iter(s, e) => run_sched(Box::new(ReadIt((&b).into_iter(), rf_a)), s, *e),
                                 SnapAction::IterMethod(s, e) => run_sched(Box::new(ReadIt(b.iter(), rf_a)), s, *e),
                                 SnapAction::IntoIter(s, e) => run_sched(Box::new(ReadIt(b.clone().into_iter(), rf_a)), s, *e),
-                                SnapAction::Get(i) => vec![Obs::Item(b.get::<usize, f32, f32>(*i).map(rf_a))],
-                                SnapAction::GetRange(r, s, e) => with_range!(r, |r| match b.get::<_, f32, f32>(r) {
+                                SnapAction::Get(i) => vec![Obs::Item(b.get(*i).map(rf_a))],
+                                SnapAction::GetRange(r, s, e) => with_range!(r, |r| match b.get(r) {
                                     None => vec![Obs::NoRange],
                                     Some(sl) => run_sched(Box::new(ReadIt(sl.into_iter(), rf_a)), s, *e),
                                 }),
@@ -805,17 +912,17 @@ macro_rules! soa {
                                         cols.push(acol);
                                         return Some(SnapResult { trace, after: Some(rows(&cols)) });
                                     }
-                                    SnapAction::Get(i) => vec![Obs::Item(b.get::<usize, f32, f32>(*i).map(rf_a))],
-                                    SnapAction::GetRange(r, s, e) => with_range!(r, |r| match b.get::<_, f32, f32>(r) {
+                                    SnapAction::Get(i) => vec![Obs::Item(b.get(*i).map(rf_a))],
+                                    SnapAction::GetRange(r, s, e) => with_range!(r, |r| match b.get(r) {
                                         None => vec![Obs::NoRange],
                                         Some(sl) => run_sched(Box::new(ReadIt(sl.into_iter(), rf_a)), s, *e),
                                     }),
-                                    SnapAction::GetMut(i, n) => vec![Obs::Item(b.get_mut::<usize, f32, f32>(*i).map(|mut c| {
+                                    SnapAction::GetMut(i, n) => vec![Obs::Item(b.get_mut(*i).map(|mut c| {
                                         let old = to_item_a(c.copied());
                                         c.set(from_item_a(*n));
                                         old
                                     }))],
-                                    SnapAction::GetMutRange(r, s, e) => with_range!(r, |r| match b.get_mut::<_, f32, f32>(r) {
+                                    SnapAction::GetMutRange(r, s, e) => with_range!(r, |r| match b.get_mut(r) {
                                         None => vec![Obs::NoRange],
                                         Some(sl) => run_sched(Box::new(WriteIt(sl.into_iter(), rd_a, wr_a)), s, *e),
                                     }),
@@ -863,17 +970,17 @@ macro_rules! soa {
                                             trace.extend(t);
                                             return Some(SnapResult { trace, after: None });
                                         }
-                                        SnapAction::Get(i) => vec![Obs::Item(b.get::<usize, f32, f32>(*i).map(rf_a))],
-                                        SnapAction::GetRange(r, s, e) => with_range!(r, |r| match b.get::<_, f32, f32>(r) {
+                                        SnapAction::Get(i) => vec![Obs::Item(b.get(*i).map(rf_a))],
+                                        SnapAction::GetRange(r, s, e) => with_range!(r, |r| match b.get(r) {
                                             None => vec![Obs::NoRange],
                                             Some(sl) => run_sched(Box::new(ReadIt(sl.into_iter(), rf_a)), s, *e),
                                         }),
-                                        SnapAction::GetMut(i, n) => vec![Obs::Item(b.get_mut::<usize, f32, f32>(*i).map(|mut c| {
+                                        SnapAction::GetMut(i, n) => vec![Obs::Item(b.get_mut(*i).map(|mut c| {
                                             let old = to_item_a(c.copied());
                                             c.set(from_item_a(*n));
                                             old
                                         }))],
-                                        SnapAction::GetMutRange(r, s, e) => with_range!(r, |r| match b.get_mut::<_, f32, f32>(r) {
+                                        SnapAction::GetMutRange(r, s, e) => with_range!(r, |r| match b.get_mut(r) {
                                             None => vec![Obs::NoRange],
                                             Some(sl) => run_sched(Box::new(WriteIt(sl.into_iter(), rd_a, wr_a)), s, *e),
                                         }),
@@ -905,12 +1012,12 @@ macro_rules! soa {
                     self.0.extend(src.map(from_item_m))
                 }
                 fn get(&self, i: usize) -> Option<Item> {
-                    self.0.get::<usize, f32, f64>(i).map(|c| to_item_m(c.copied()))
+                    self.0.get(i).map(|c| to_item_m(c.copied()))
                 }
                 fn get_range<'a>(&'a self, r: &RangeSpec) -> Option<Box<dyn It + 'a>> {
                     // palette offers no iterator for mixed element types; read the
                     // returned color-of-slices through its public fields
-                    with_range!(r, |r| self.0.get::<_, f32, f64>(r).map(|s| {
+                    with_range!(r, |r| self.0.get(r).map(|s| {
                         let cols: Vec<&[f32]> = vec![$(uw::<&[f32], _>(s.color.$f)),+];
                         let alpha: &[f64] = s.alpha;
                         let n = cols.iter().map(|c| c.len()).chain(Some(alpha.len())).min().unwrap_or(0);
@@ -926,7 +1033,7 @@ macro_rules! soa {
                     }))
                 }
                 fn get_mut(&mut self, i: usize, new: Option<Item>) -> Option<Item> {
-                    self.0.get_mut::<usize, f32, f64>(i).map(|mut c| {
+                    self.0.get_mut(i).map(|mut c| {
                         let old = to_item_m(c.copied());
                         if let Some(n) = new { c.set(from_item_m(n)); }
                         old
